@@ -468,9 +468,25 @@ type c16Defs struct {
 }
 
 func buildC16(rs *lexgen.RuleSet) (*c16Defs, string, outcome) {
-	def, rej := newDef(rs)
+	// the definition is built from a rule map that the caller keeps editing afterwards: what is marshalled
+	// must be the definition as built, not an alias of the caller's slices
+	userRules := rs.ToRules()
+	var def *lexer.StatefulDefinition
+	var nerr error
+	rej := ""
+	if p := guard(func() { def, nerr = lexer.New(userRules) }); p != "" {
+		rej = "constructor panicked: " + p
+	} else if nerr != nil {
+		rej = nerr.Error()
+	}
 	if rej != "" {
 		return nil, rej, outcome{}
+	}
+	for state := range userRules {
+		for i := range userRules[state] {
+			userRules[state][i].Pattern = "scribbled-over-after-New"
+			userRules[state][i].Name = "Scribble"
+		}
 	}
 	d := &c16Defs{orig: def}
 	var msg string
